@@ -80,6 +80,7 @@ type scen struct {
 	Version   string            `json:"plugin_version,omitempty"`
 	Caps      []string          `json:"caps,omitempty"` // TI, Rev, Other
 	RespErr   bool              `json:"plugin_error"`
+	NilResp   bool              `json:"plugin_nil_response,omitempty"` // the plugin answers (nil, nil): refused like an error (fix 686cc56)
 	Processed []string          `json:"processed,omitempty"`
 	TI        int               `json:"ti_verdict"` // 0 missing, 1 success, 2 failure, 3 nil entry
 	Rev       int               `json:"rev_verdict"`
@@ -166,7 +167,7 @@ func run(a *Args) error {
 	// contract-free oracle (acceptance rule, what is performed, what the plugin is asked, truthful results) on ALL inputs
 	prelude := "From NV Require Import Base Regex Generated C02_Levels VerifyCore C02_Model C02_Struct C02_Versions.\nOpen Scope string_scope.\n"
 	w := NewCaseWriter(a, "C02", prelude, "case", "run_all")
-	w.Rule = "scenarios realised on the real verifier.Verify. Family table: every enforcement map reachable from {strict,permissive,audit} x legal overrides (24 maps, a random (level, override) representative each) x every subset of simultaneously failing native validations {trust store authenticity, identity, expiry, certificate time, revocation} (quick) resp. the full product {anchor found, load error, not anchored} x identity x expired x certificate time x revocation {ok, revoked, unknown, validator error} (thorough) x plugin situation {none, not installed, version too low, no verification capability, trusted-identity, revocation, both} x verdicts {success, failure, missing} x critical attributes {none, processed, unprocessed}; the cells that differ only in the map form a group on which monotonicity of acceptance is checked directly. Family random: malformed plugin headers, blank names, missing manager, metadata error, invalid versions, capability orders with foreign capabilities, plugin errors, nil verdict entries, non-critical attributes, integer-labelled critical attributes (COSE), corrupted envelopes, both envelope formats. Family versions: (plugin version, demanded minimum) pairs around SemVer precedence. Family corpus: the fixed defects and the known finding. Family illegal: level/override combinations GetVerificationLevel must refuse. Family duplicates: a verification capability declared several times (outside wf_sc; judged by the contract-free oracle spec_all). Family revshape: validator answers with a result too few / too many / a nil entry (fix d78db00) under enforce, log, skip and with a revocation plugin. Family revchain: the bad / non-revokable revocation status sits on the intermediate or root certificate (the verdict depends on every certificate of the chain). Family uspace: plugin name / minimum version made of or containing Unicode white space. non-trivial = at least one failed validation or a plugin header / extended attribute present; distinct = distinct scenario tuples"
+	w.Rule = "scenarios realised on the real verifier.Verify. Family table: every enforcement map reachable from {strict,permissive,audit} x legal overrides (24 maps, a random (level, override) representative each) x every subset of simultaneously failing native validations {trust store authenticity, identity, expiry, certificate time, revocation} (quick) resp. the full product {anchor found, load error, not anchored} x identity x expired x certificate time x revocation {ok, revoked, unknown, validator error} (thorough) x plugin situation {none, not installed, version too low, no verification capability, trusted-identity, revocation, both} x verdicts {success, failure, missing} x critical attributes {none, processed, unprocessed}; the cells that differ only in the map form a group on which monotonicity of acceptance is checked directly. Family random: malformed plugin headers, blank names, missing manager, metadata error, invalid versions, capability orders with foreign capabilities, plugin errors, nil verdict entries, non-critical attributes, integer-labelled critical attributes (COSE), corrupted envelopes, both envelope formats. Family versions: (plugin version, demanded minimum) pairs around SemVer precedence. Family corpus: the fixed defects and the known finding. Family illegal: level/override combinations GetVerificationLevel must refuse. Family duplicates: a verification capability declared several times (outside wf_sc; judged by the contract-free oracle spec_all). Family revshape: validator answers with a result too few / too many / a nil entry (fix d78db00) under enforce, log, skip and with a revocation plugin. Family revchain: the bad / non-revokable revocation status sits on the intermediate or root certificate (the verdict depends on every certificate of the chain). Family nilresp: the plugin answers (nil, nil). Family uspace: plugin name / minimum version made of or containing Unicode white space. non-trivial = at least one failed validation or a plugin header / extended attribute present; distinct = distinct scenario tuples"
 	w.Assumptions = []string{
 		"plugin metadata lists each verification capability at most once (wf_sc): needed only for the clause 'each result type at most once, in the fixed order'; the acceptance rule, monotonicity, what is performed / asked and the truthfulness of the results are proved and checked without it (families random and duplicates)",
 		"validity and order of the plugin version / demanded minimum are computed inside Coq from the version strings by C20's model of internal/semver.IsValid and x/mod/semver.Compare (C02_Versions.plugin_of, minver_valid_of); family versions holds the pairs around SemVer precedence",
@@ -490,6 +491,8 @@ func run(a *Args) error {
 						Description: "d", URL: "u", SupportedContractVersions: []string{"1.0"}}
 					if s.RespErr {
 						plug.VerifyErr = errors.New("mock: plugin failure")
+					} else if s.NilResp {
+						plug.Resp = nil // and no error
 					} else {
 						vr := map[pluginfw.Capability]*pluginfw.VerificationResult{}
 						set := func(c pluginfw.Capability, v int) {
@@ -712,7 +715,7 @@ func run(a *Args) error {
 			pm = "PMNotInstalled"
 		}
 		presp := "PErr"
-		if !s.RespErr {
+		if !s.RespErr && !s.NilResp {
 			verd := func(v int) string {
 				if s.NilVR || s.FoldKeys {
 					return "None"
@@ -1443,6 +1446,20 @@ func run(a *Args) error {
 				s2.MinVer = attrSpec{State: aStr, Val: nm}
 				exec(s2, nil)
 			}()
+		}
+	}
+
+	// 13. the plugin answers (nil, nil): executePlugin must refuse it (GoLite mutant "nil answer read as an
+	// empty answer" changes the error from a plain one to ErrorVerificationInconclusive)
+	for _, l := range []lv{{name: "strict"}, {name: "audit"}, {name: "strict", ov: map[string]string{"revocation": "skip"}}} {
+		for _, caps := range [][]string{{"TI"}, {"Rev"}, {"TI", "Rev"}} {
+			s := plugScen("nilresp", l, caps...)
+			s.NilResp = true
+			exec(s, nil)
+			s2 := plugScen("nilresp", l, caps...)
+			s2.NilResp = true
+			s2.OtherCrit = []string{"foo"}
+			exec(s2, nil)
 		}
 	}
 
